@@ -88,6 +88,21 @@ Example demo_content :
   idents_of (wof demo) 0 = [(BS "/A", 2); (BS "/A/S", 5); (BS "/B", 8)] /\ origins_list (wof demo) 0 = [(BS "/B", [7])].
 Proof. vm_compute. split; reflexivity. Qed.
 
+(* remove_from_file / remove_file: /B (8) is taken out of the second file, then out of the first one: it is removed
+   from the model (its index entry goes, the reference 7 keeps its text and its referrer entry: a dangling reference);
+   then the second file is removed from the model *)
+Definition files_demo : list op :=
+  demo ++ [OpCreateFile 0 (BS "g") 2; OpRemoveFromFile 8 1; OpRemoveFromFile 8 0; OpRemoveFile 0 1].
+Example files_demo_inv :
+  TreeFacts (wof files_demo) /\ Inv04 tiny tiny_check_fn (wof files_demo) /\ Inv05 tiny (wof files_demo).
+Proof. apply script_inv. vm_compute. reflexivity. Qed.
+Example files_demo_content :
+  trace_script files_demo empty_world =
+    map OOk [VModel 0; VFile 0; VElem 1; VElem 2; VElem 4; VElem 5; VElem 7; VElem 8; VUnit; VFile 1; VUnit; VUnit; VUnit] /\
+  idents_of (wof files_demo) 0 = [(BS "/A", 2); (BS "/A/S", 5)] /\ origins_list (wof files_demo) 0 = [(BS "/B", [7])] /\
+  option_map n_parent (w_nodes (wof files_demo) 8) = Some PNone.
+Proof. vm_compute. repeat split; reflexivity. Qed.
+
 (* the hypotheses of the per-operation theorems are satisfiable together with a non-trivial operation *)
 Example demo_step_hyps :
   let w := wof demo in let o := OpCreateNamed 4 nSYSTEM (BS "T") in
